@@ -11,6 +11,8 @@ import (
 	"time"
 
 	"golang.org/x/exp/mmap"
+
+	"github.com/klev-dev/klevdb/pkg/verifhook"
 )
 
 var (
@@ -125,6 +127,7 @@ func OpenWriter(path string, offset int64, newVersion Version) (w *Writer, retEr
 	if err != nil {
 		return nil, fmt.Errorf("write log stat: %w", err)
 	}
+	verifhook.FS("open", path, stat.Size(), 0)
 
 	pos := stat.Size()
 	var v Version
@@ -136,6 +139,7 @@ func OpenWriter(path string, offset int64, newVersion Version) (w *Writer, retEr
 		if _, err := f.Write(h[:]); err != nil {
 			return nil, fmt.Errorf("write log header: %w", err)
 		}
+		verifhook.FS("header", path, int64(len(h)), 0)
 		pos = int64(len(h))
 		v = newVersion
 	} else {
@@ -208,6 +212,7 @@ func (w *Writer) writeV1(m Message) (int64, error) {
 		return 0, fmt.Errorf("write log: %w", err)
 	} else {
 		w.pos += int64(n)
+		verifhook.FS("append", w.Path, int64(n), 0)
 	}
 	return pos, nil
 }
@@ -255,6 +260,7 @@ func (w *Writer) writeV2(m Message) (int64, error) {
 		return 0, fmt.Errorf("write log: %w", err)
 	} else {
 		w.pos += int64(n)
+		verifhook.FS("append", w.Path, int64(n), 0)
 	}
 	return pos, nil
 }
@@ -267,6 +273,7 @@ func (w *Writer) Sync() error {
 	if err := w.f.Sync(); err != nil {
 		return fmt.Errorf("write log sync: %w", err)
 	}
+	verifhook.FS("fsync", w.Path, 0, 0)
 	return nil
 }
 
